@@ -7,7 +7,10 @@ and all 256 values, every prefix, plus unconstrained random strings.
 """
 from .common import *
 
-METHODS = [b"GET", b"POST", b"HEAD", b"PUT", b"PATCH", b"DELETE", b"OPTIONS", b"TRACE", b"PURGE", b"X", b"get", b"MKCOL", b"CONNECT"]
+METHODS = [b"GET", b"POST", b"HEAD", b"PUT", b"PATCH", b"DELETE", b"OPTIONS", b"TRACE", b"PURGE", b"X", b"get", b"MKCOL", b"CONNECT",
+           # neighbours of the built-in names: proper prefixes and extensions (fast paths compare fixed-length prefixes)
+           b"GETX", b"GE", b"G", b"POSTX", b"POSTPONE", b"POS", b"PO", b"HEADX", b"HEA", b"PUTT", b"PU", b"PATCHY", b"PATC",
+           b"DELETED", b"DELET", b"OPTIONSX", b"OPTION", b"TRACER", b"TRAC", b"Get", b"Post", b"gET"]
 PCHAR = b"abcdefghijklmnopqrstuvwxyzABCDEFGHIJKLMNOPQRSTUVWXYZ0123456789-._~!$&'()*+,;=:@%"
 QCHAR = PCHAR + b"/?"
 HOSTCH = b"abcdefghijklmnopqrstuvwxyz0123456789.-"
